@@ -1,4 +1,5 @@
 import LenaModel.Model.C10
+import LenaModel.Lemmas.C10
 /-! # C10 — selective elements pass the values they do not select through unchanged
 
 Property (properties.jsonl, C10): elements that act only on particular kinds of values yield every value they
@@ -19,25 +20,13 @@ All theorems are for flows, interleavings, element settings and inner sequences 
 
 namespace Lena.C10
 
-variable {σ α : Type}
+variable {σ α β : Type}
 
 /-! ## 1. The generic law -/
 
 /-- the loop body yields a value it does not select as it is, and does nothing else -/
 def Passes (f : σ → α → Step σ α) (sel : α → Bool) : Prop :=
   ∀ s v, sel v = false → f s v = pass s v
-
-theorem loop_nil (f : σ → α → Step σ α) (s : σ) : loop f s [] = ⟨[], s, none⟩ := rfl
-
-theorem loop_cons_ok (f : σ → α → Step σ α) (s s' : σ) (v : α) (vs out : List α)
-    (h : f s v = ⟨out, s', none⟩) :
-    loop f s (v :: vs) = ⟨out :: (loop f s' vs).blocks, (loop f s' vs).st, (loop f s' vs).err⟩ := by
-  simp [loop, h]
-
-theorem loop_cons_err (f : σ → α → Step σ α) (s s' : σ) (v : α) (vs out : List α) (e : Exc)
-    (h : f s v = ⟨out, s', some e⟩) :
-    loop f s (v :: vs) = ⟨[out], s', some e⟩ := by
-  simp [loop, h]
 
 /-- one unselected value at the head of the flow: it is yielded, alone, and the run goes on from the
 same state as if it had not been there -/
@@ -46,7 +35,7 @@ theorem loop_cons_unselected (f : σ → α → Step σ α) (sel : α → Bool) 
     loop f s (v :: vs) = ⟨[v] :: (loop f s vs).blocks, (loop f s vs).st, (loop f s vs).err⟩ :=
   loop_cons_ok f s s v vs [v] (hp s v hv)
 
-theorem loop_blocks_length_le (f : σ → α → Step σ α) : ∀ (xs : List α) (s : σ),
+theorem loop_blocks_length_le (f : σ → α → Step σ β) : ∀ (xs : List α) (s : σ),
     (loop f s xs).blocks.length ≤ xs.length
   | [], s => by simp [loop]
   | v :: vs, s => by
@@ -54,7 +43,7 @@ theorem loop_blocks_length_le (f : σ → α → Step σ α) : ∀ (xs : List α
     · rw [loop_cons_ok f s s' v vs out h]; simpa using loop_blocks_length_le f vs s'
     · rw [loop_cons_err f s s' v vs out e h]; simp
 
-theorem loop_blocks_length_of_ok (f : σ → α → Step σ α) : ∀ (xs : List α) (s : σ),
+theorem loop_blocks_length_of_ok (f : σ → α → Step σ β) : ∀ (xs : List α) (s : σ),
     (loop f s xs).err = none → (loop f s xs).blocks.length = xs.length
   | [], s, _ => by simp [loop]
   | v :: vs, s, he => by
@@ -63,7 +52,7 @@ theorem loop_blocks_length_of_ok (f : σ → α → Step σ α) : ∀ (xs : List
       simpa using loop_blocks_length_of_ok f vs s' he
     · rw [loop_cons_err f s s' v vs out e h] at he; simp at he
 
-theorem loop_blocks_ne_nil_of_err (f : σ → α → Step σ α) : ∀ (xs : List α) (s : σ),
+theorem loop_blocks_ne_nil_of_err (f : σ → α → Step σ β) : ∀ (xs : List α) (s : σ),
     (loop f s xs).err.isSome = true → (loop f s xs).blocks ≠ []
   | [], s, he => by simp [loop] at he
   | v :: vs, s, _ => by
@@ -458,7 +447,7 @@ theorem mapGroup_interleave (inner : σ → List Item → Step σ Item) (p : Lis
 /-! ## 3. Element-specific facts -/
 
 /-- a loop whose body never changes the state leaves it as it was -/
-theorem loop_state_const {β : Type} (f : σ → α → Step σ β) (h : ∀ s v, (f s v).st = s) :
+theorem loop_state_const (f : σ → α → Step σ β) (h : ∀ s v, (f s v).st = s) :
     ∀ (xs : List α) (s : σ), (loop f s xs).st = s
   | [], s => rfl
   | v :: vs, s => by
@@ -534,5 +523,463 @@ theorem write_already_written (cfg : WriteCfg) (fs : FS) (v : Item) (c : Ctx) (o
     cases v; simp_all
   unfold writeStep
   simp [Item.ctxOr, hc, hw, hk, ho, hm, hd, hv]
+
+/-! ### the selection predicates are exact: a selected value is never yielded as it came
+
+Every object made while a value is processed has a new identity (`Tok.made`), so for the elements below a
+consumed value is yielded as the very same object **iff** it is not selected (`Write`'s "already written"
+branch and `RunIf`/`MapGroup` with an inner sequence that returns its input are the exceptions). -/
+
+theorem Tok.made_ne (t : Tok) (k : Nat) : Tok.made t k ≠ t := by
+  intro h
+  have := congrArg sizeOf h
+  simp at this
+  omega
+
+/-- every yielded value is a new object made from `v` -/
+def AllFresh (v : Item) (out : List Item) : Prop := ∀ y ∈ out, ∃ k, y.tok = Tok.made v.tok k
+
+theorem AllFresh.ne {v : Item} {out : List Item} (h : AllFresh v out) : ∀ y ∈ out, y.tok ≠ v.tok := by
+  intro y hy
+  obtain ⟨k, hk⟩ := h y hy
+  rw [hk]; exact Tok.made_ne _ _
+
+theorem allFresh_mk (v : Item) (k : Nat) (d : Data) (c : Ctx) : AllFresh v [mk v k d c] := by
+  intro y hy
+  simp only [List.mem_singleton] at hy
+  exact ⟨2 * k, by rw [hy]; rfl⟩
+
+theorem allFresh_nil (v : Item) : AllFresh v [] := by
+  intro y hy; simp at hy
+
+theorem allFresh_ite (v : Item) (c : Prop) [Decidable c] (a b : Step σ Item) (ha : AllFresh v a.out)
+    (hb : AllFresh v b.out) : AllFresh v (if c then a else b).out := by
+  split <;> assumption
+
+theorem toCSV_selected_fresh (s : σ) (v : Item) (h : toCSVSel v = true) : AllFresh v (toCSVStep s v).out := by
+  unfold toCSVSel at h
+  simp only [Bool.and_eq_true] at h
+  obtain ⟨h1, h2⟩ := h
+  simp only [toCSVStep, ctxOr_d, h1, Bool.not_true, Bool.false_eq_true, if_false]
+  revert h2
+  generalize v.data = data
+  intro h2
+  cases data with
+  | hist hh =>
+    simp only [Bool.or_eq_true] at h2
+    by_cases h3 : (hh.dim == 1) = true
+    · simp only [h3, if_true]
+      exact allFresh_ite _ _ _ _ (allFresh_mk _ _ _ _) (allFresh_nil _)
+    · have h4 : (hh.dim == 2) = true := by
+        rcases h2 with h2 | h2
+        · exact absurd h2 h3
+        · exact h2
+      simp only [h3, h4, Bool.false_eq_true, if_true, if_false]
+      exact allFresh_ite _ _ _ _ (allFresh_mk _ _ _ _) (allFresh_nil _)
+  | rows id k upd =>
+    simp only [Data.rowsInfo]
+    split
+    · exact allFresh_nil _
+    · exact allFresh_mk _ _ _ _
+  | graph src =>
+    simp only [Data.rowsInfo]
+    exact allFresh_mk _ _ _ _
+  | _ => simp [Data.hasRows, Data.rowsInfo] at h2
+
+theorem render_selected_fresh (cfg : RenderCfg) (s : σ) (v : Item) (h : renderSel cfg v = true) :
+    AllFresh v (renderStep cfg s v).out := by
+  simp only [renderStep, h, if_true]
+  repeat' split
+  all_goals first | exact allFresh_nil _ | exact allFresh_mk _ _ _ _
+
+theorem png_selected_fresh (cfg : PngCfg) (fs : FS) (v : Item) (h : pngSel v = true) :
+    AllFresh v (pngStep cfg fs v).out := by
+  simp only [pngStep, h, if_true]
+  repeat' split
+  all_goals first | exact allFresh_nil _ | exact allFresh_mk _ _ _ _
+
+theorem histToGraph_selected_fresh (s : σ) (v : Item) (h : histToGraphSel v = true) :
+    AllFresh v (histToGraphStep s v).out := by
+  unfold histToGraphSel at h
+  simp only [Bool.and_eq_true] at h
+  simp only [histToGraphStep, ctxOr_d, h.1, h.2, Bool.not_true, Bool.or_self, Bool.false_eq_true, if_false]
+  exact allFresh_mk _ _ _ _
+
+theorem iterateBins_selected_fresh (sb : BinKind → Bool) (s : σ) (v : Item) (h : iterateBinsSel sb v = true) :
+    AllFresh v (iterateBinsStep sb s v).out := by
+  unfold iterateBinsSel at h
+  unfold iterateBinsStep
+  revert h
+  generalize v.data = data
+  intro h
+  cases data <;> simp only at h <;> try contradiction
+  simp only [h, Bool.not_true, Bool.false_eq_true, if_false]
+  split
+  · exact allFresh_nil _
+  · intro y hy
+    simp only [List.mem_map, List.mem_range] at hy
+    obtain ⟨i, _, rfl⟩ := hy
+    exact ⟨2 * i, rfl⟩
+
+theorem mapBinsRounds_fresh (v : Item) (h : HistD) (d : Dict) (res : List CellRes) (s : σ) :
+    ∀ (fuel k : Nat) (acc : List Item), AllFresh v acc → AllFresh v (mapBinsRounds v h d res s fuel k acc).out
+  | 0, _, acc, ha => by
+    intro y hy
+    simp only [mapBinsRounds, List.mem_reverse] at hy
+    exact ha y hy
+  | fuel + 1, k, acc, ha => by
+    unfold mapBinsRounds
+    split
+    · intro y hy
+      simp only [List.mem_reverse] at hy
+      exact ha y hy
+    · intro y hy
+      simp only [List.mem_reverse] at hy
+      exact ha y hy
+    · apply mapBinsRounds_fresh v h d res s fuel (k + 1)
+      intro y hy
+      simp only [List.mem_cons] at hy
+      rcases hy with rfl | hy
+      · exact ⟨2 * k, rfl⟩
+      · exact ha y hy
+
+theorem mapBins_selected_fresh (sb : BinKind → Bool) (inner : Item → CellRes) (s : σ) (v : Item)
+    (h : mapBinsSel sb v = true) : AllFresh v (mapBinsStep sb inner s v).out := by
+  unfold mapBinsSel at h
+  unfold mapBinsStep
+  revert h
+  generalize v.data = data
+  intro h
+  cases data <;> simp only at h <;> try contradiction
+  simp only [h, Bool.not_true, Bool.false_eq_true, if_false]
+  exact mapBinsRounds_fresh _ _ _ _ _ _ _ _ (allFresh_nil _)
+
+theorem mapGroup_selected_fresh (inner : σ → List Item → Step σ Item) (s : σ) (v : Item)
+    (h : mapGroupSel v = true) : AllFresh v (mapGroupStep inner s v).out := by
+  unfold mapGroupSel hasKey Item.dict at h
+  unfold mapGroupStep
+  cases hc : v.ctx with
+  | none => simp [hc, lookup] at h
+  | some c =>
+    simp only [hc] at h ⊢
+    cases hg : lookup c.d "group" with
+    | none => simp [hg] at h
+    | some g =>
+      simp only [hg, Option.isSome_some, Bool.true_and] at h
+      simp only [h, Bool.not_true, Bool.false_eq_true, if_false]
+      repeat' split
+      all_goals first
+        | exact allFresh_nil _
+        | (intro y hy
+           simp only [List.mem_map, List.mem_range] at hy
+           obtain ⟨i, _, rfl⟩ := hy
+           exact ⟨2 * i, rfl⟩)
+
+/-- for a loop body that passes unselected values and makes only new objects for selected ones: a
+consumed value is yielded as the very same object **iff** it is not selected -/
+theorem same_object_iff_unselected (f : σ → Item → Step σ Item) (sel : Item → Bool) (hp : Passes f sel)
+    (hf : ∀ s v, sel v = true → AllFresh v (f s v).out) (s : σ) (v : Item) :
+    (∃ y ∈ (f s v).out, y.tok = v.tok) ↔ sel v = false := by
+  constructor
+  · rintro ⟨y, hy, hyt⟩
+    cases hs : sel v
+    · rfl
+    · exact absurd hyt ((hf s v hs).ne y hy)
+  · intro hs
+    rw [hp s v hs]
+    exact ⟨v, by simp [pass], rfl⟩
+
+theorem toCSV_same_object_iff (s : σ) (v : Item) :
+    (∃ y ∈ (toCSVStep s v).out, y.tok = v.tok) ↔ toCSVSel v = false :=
+  same_object_iff_unselected _ _ toCSV_passes toCSV_selected_fresh s v
+
+theorem render_same_object_iff (cfg : RenderCfg) (s : σ) (v : Item) :
+    (∃ y ∈ (renderStep cfg s v).out, y.tok = v.tok) ↔ renderSel cfg v = false :=
+  same_object_iff_unselected _ _ (render_passes cfg) (render_selected_fresh cfg) s v
+
+theorem png_same_object_iff (cfg : PngCfg) (fs : FS) (v : Item) :
+    (∃ y ∈ (pngStep cfg fs v).out, y.tok = v.tok) ↔ pngSel v = false :=
+  same_object_iff_unselected _ _ (png_passes cfg) (png_selected_fresh cfg) fs v
+
+theorem histToGraph_same_object_iff (s : σ) (v : Item) :
+    (∃ y ∈ (histToGraphStep s v).out, y.tok = v.tok) ↔ histToGraphSel v = false :=
+  same_object_iff_unselected _ _ histToGraph_passes histToGraph_selected_fresh s v
+
+theorem iterateBins_same_object_iff (sb : BinKind → Bool) (s : σ) (v : Item) :
+    (∃ y ∈ (iterateBinsStep sb s v).out, y.tok = v.tok) ↔ iterateBinsSel sb v = false :=
+  same_object_iff_unselected _ _ (iterateBins_passes sb) (iterateBins_selected_fresh sb) s v
+
+theorem mapBins_same_object_iff (sb : BinKind → Bool) (inner : Item → CellRes) (s : σ) (v : Item) :
+    (∃ y ∈ (mapBinsStep sb inner s v).out, y.tok = v.tok) ↔ mapBinsSel sb v = false :=
+  same_object_iff_unselected _ _ (mapBins_passes sb inner) (mapBins_selected_fresh sb inner) s v
+
+theorem mapGroup_same_object_iff (inner : σ → List Item → Step σ Item) (s : σ) (v : Item) :
+    (∃ y ∈ (mapGroupStep inner s v).out, y.tok = v.tok) ↔ mapGroupSel v = false :=
+  same_object_iff_unselected _ _ (mapGroup_passes inner) (mapGroup_selected_fresh inner) s v
+
+/-! ## 4. `LaTeXToPDF`: unselected values pass as they are, in order, whenever the processes end -/
+
+/-- the consumed values among what was yielded -/
+def passedOf (es : List Emit) : List Item :=
+  es.filterMap (fun e => match e with
+    | .pass v => some v
+    | .prod _ => none)
+
+theorem passedOf_append (a b : List Emit) : passedOf (a ++ b) = passedOf a ++ passedOf b := by
+  simp [passedOf, List.filterMap_append]
+
+theorem passedOf_nil : passedOf [] = [] := rfl
+theorem passedOf_pass (v : Item) : passedOf [.pass v] = [v] := rfl
+theorem passedOf_prod (v : Item) : passedOf [.prod v] = [] := rfl
+theorem passedOf_cons_prod (v : Item) (es : List Emit) : passedOf (.prod v :: es) = passedOf es := rfl
+
+theorem popReturned_prod (sch : Sched) (it : Nat) : ∀ (pool : List Proc) (fs : FS),
+    passedOf (popReturned sch it fs pool).2.1 = []
+  | [], fs => rfl
+  | p :: ps, fs => by
+    unfold popReturned
+    split
+    · split
+      · exact popReturned_prod sch it ps fs
+      · have := popReturned_prod sch it ps (fs.write p.key (.conv "pdf" p.tex))
+        simpa only [passedOf_cons_prod] using this
+    · exact popReturned_prod sch it ps fs
+
+theorem pdfDrain_prod (sch : Sched) : ∀ (pool : List Proc) (fs : FS), passedOf (pdfDrain sch fs pool).1 = []
+  | [], fs => rfl
+  | p :: ps, fs => by
+    unfold pdfDrain
+    split
+    · exact pdfDrain_prod sch ps fs
+    · have := pdfDrain_prod sch ps (fs.write p.key (.conv "pdf" p.tex))
+      simpa only [passedOf_cons_prod] using this
+
+/-- while an unselected value is processed the pool may yield finished results, then the value itself
+follows, as it is; no exception -/
+theorem pdf_unselected_step (ow : Bool) (sch : Sched) (st : PdfSt) (v : Item) (h : pdfSel v = false) :
+    (pdfStep ow sch st v).out = (popReturned sch st.iter st.fs st.pool).2.1 ++ [.pass v] ∧
+    (pdfStep ow sch st v).err = none := by
+  simp [pdfStep, h]
+
+/-- a selected value is never yielded as it came -/
+theorem pdfStep_passed (ow : Bool) (sch : Sched) (st : PdfSt) (v : Item) :
+    passedOf (pdfStep ow sch st v).out = if pdfSel v then [] else [v] := by
+  have hpop := popReturned_prod sch st.iter st.pool st.fs
+  cases h : pdfSel v
+  · simp [pdfStep, h, passedOf_append, hpop, passedOf_pass]
+  · simp only [pdfStep, h, Bool.not_true, Bool.false_eq_true, if_false, if_true]
+    repeat' split
+    all_goals simp only [passedOf_append, hpop, passedOf_prod, List.append_nil]
+
+theorem pdf_loop_passed (ow : Bool) (sch : Sched) : ∀ (xs : List Item) (st : PdfSt),
+    passedOf (loop (pdfStep ow sch) st xs).blocks.flatten =
+      (xs.take (loop (pdfStep ow sch) st xs).blocks.length).filter (fun v => !pdfSel v)
+  | [], st => rfl
+  | v :: vs, st => by
+    have hv := pdfStep_passed ow sch st v
+    rcases hf : pdfStep ow sch st v with ⟨out, st', _ | e⟩
+    · rw [hf] at hv
+      have ih := pdf_loop_passed ow sch vs st'
+      simp only [loop, hf, List.flatten_cons, passedOf_append, List.length_cons, List.take_succ_cons,
+        List.filter_cons, ih]
+      simp only at hv
+      rw [hv]
+      cases pdfSel v <;> simp
+    · rw [hf] at hv
+      simp only at hv
+      simp only [loop, hf, List.flatten_cons, List.flatten_nil, List.append_nil, List.length_cons,
+        List.length_nil, List.take_succ_cons, List.take_zero, List.filter_cons, List.filter_nil, hv]
+      cases pdfSel v <;> simp
+
+/-- **`LaTeXToPDF`: the unselected values are yielded as the very same objects, each once, in unchanged
+relative order — for every schedule of the external processes.**  (All of them if the run ends normally,
+those consumed before the exception otherwise.) -/
+theorem pdf_unselected_same_objects_in_order (ow : Bool) (sch : Sched) (fs : FS) (xs : List Item) :
+    passedOf (pdfRun ow sch fs xs).out =
+      (xs.take (pdfRun ow sch fs xs).blocks.length).filter (fun v => !pdfSel v) ∧
+    ((pdfRun ow sch fs xs).err = none →
+      passedOf (pdfRun ow sch fs xs).out = xs.filter (fun v => !pdfSel v)) := by
+  have hl := pdf_loop_passed ow sch xs ⟨fs, [], 0, 0⟩
+  have hlen := loop_blocks_length_of_ok (pdfStep ow sch) xs ⟨fs, [], 0, 0⟩
+  unfold pdfRun PdfRun.out
+  cases he : (loop (pdfStep ow sch) ⟨fs, [], 0, 0⟩ xs).err with
+  | some e => simp [he, passedOf_append, hl, passedOf_nil]
+  | none =>
+    have hd := pdfDrain_prod sch (loop (pdfStep ow sch) ⟨fs, [], 0, 0⟩ xs).st.pool
+      (loop (pdfStep ow sch) ⟨fs, [], 0, 0⟩ xs).st.fs
+    simp only [he, passedOf_append, hl, hd, List.append_nil, hlen he, List.take_length, true_and]
+    intro _; trivial
+
+/-! ### `LaTeXToPDF`: the multiset of what is produced for the selected values
+
+The pool delays and may reorder the results, and *when* a result appears depends on the external
+processes; but as a multiset the produced values are a function (`pdfSpec`) of the selected values, the
+initial file system and the return codes — not of the interleaved unselected values, and not of the
+timing — provided the files do not collide (`KeysOK []`: the pdf names of the selected values are pairwise
+different and no tex name is one of them; two selected values with the same file name race with each
+other in the real code, whatever is interleaved). -/
+
+theorem pdfRun_err (ow : Bool) (sch : Sched) (fs : FS) (xs : List Item) :
+    (pdfRun ow sch fs xs).err = (loop (pdfStep ow sch) ⟨fs, [], 0, 0⟩ xs).err := by
+  cases h : (loop (pdfStep ow sch) ⟨fs, [], 0, 0⟩ xs).err <;> simp [pdfRun, h]
+
+theorem pdf_selected_multiset (ow : Bool) (sch : Sched) (fs : FS) (xs : List Item)
+    (hok : (pdfRun ow sch fs xs).err = none) (hk : KeysOK [] xs) :
+    (prodsOf (pdfRun ow sch fs xs).out).Perm (pdfSpec ow sch.rc fs 0 (xs.filter pdfSel)) := by
+  rw [pdfRun_err] at hok
+  have h := pdf_loop_spec ow sch xs ⟨fs, [], 0, 0⟩ hok (by simpa using hk)
+  have hd := pdfDrain_spec sch (loop (pdfStep ow sch) ⟨fs, [], 0, 0⟩ xs).st.pool
+    (loop (pdfStep ow sch) ⟨fs, [], 0, 0⟩ xs).st.fs
+  unfold pdfRun PdfRun.out
+  simp only [hok, prodsOf_append, hd]
+  simpa [pending] using h
+
+/-- **`LaTeXToPDF`: what is produced for the selected values does not depend — as a multiset — on the
+interleaved unselected values nor on when the processes end.**  Two flows with the same selected values
+(any unselected values interleaved in any way), two schedules with the same return codes. -/
+theorem pdf_selected_independent (ow : Bool) (sch sch' : Sched) (fs : FS) (xs xs' : List Item)
+    (hA : xs.filter pdfSel = xs'.filter pdfSel) (hrc : sch.rc = sch'.rc)
+    (hok : (pdfRun ow sch fs xs).err = none) (hok' : (pdfRun ow sch' fs xs').err = none)
+    (hk : KeysOK [] xs) :
+    (prodsOf (pdfRun ow sch fs xs).out).Perm (prodsOf (pdfRun ow sch' fs xs').out) := by
+  have hk' : KeysOK [] xs' := by
+    have e : selTex xs' = selTex xs := by simp [selTex, hA]
+    constructor
+    · simpa [selKeys, e] using hk.nodup
+    · intro t ht; simpa [selKeys, e] using hk.texNotKey t (by rw [← e]; exact ht)
+  have h1 := pdf_selected_multiset ow sch fs xs hok hk
+  have h2 := pdf_selected_multiset ow sch' fs xs' hok' hk'
+  rw [hA, hrc] at h1
+  exact h1.trans h2.symm
+
+/-! ## 4b. Pipelines: inserting a selective element never alters values meant for other elements -/
+
+/-- `Sequence(E1, E2)` of two selective elements is selective: it passes what neither selects -/
+theorem pipe_passes (f1 f2 : σ → Item → Step σ Item) (sel1 sel2 : Item → Bool) (h1 : Passes f1 sel1)
+    (h2 : Passes f2 sel2) : Passes (pipeStep f1 f2) (fun v => sel1 v || sel2 v) := by
+  intro s v h
+  simp only [Bool.or_eq_false_iff] at h
+  unfold pipeStep
+  rw [h1 s v h.1]
+  simp [pass, loop, h2 s v h.2, Run.out]
+
+/-- `Sequence(E1, …, En)` passes what none of its elements selects -/
+theorem pipeAll_passes : ∀ (l : List ((σ → Item → Step σ Item) × (Item → Bool))),
+    (∀ p ∈ l, Passes p.1 p.2) → Passes (pipeAll (l.map (·.1))) (fun v => l.any (fun p => p.2 v))
+  | [], _ => by intro s v _; rfl
+  | p :: l, h => by
+    have ih := pipeAll_passes l (fun q hq => h q (List.mem_cons_of_mem _ hq))
+    have := pipe_passes p.1 (pipeAll (l.map (·.1))) p.2 _ (h p (by simp)) ih
+    simpa [pipeAll] using this
+
+/-- **Inserting a selective element in front of a pipeline is invisible for the values it does not
+select**: they reach the rest of the pipeline exactly as if the element were not there (same results,
+same state, same exception). -/
+theorem insert_invisible_before (f1 f2 : σ → Item → Step σ Item) (sel1 : Item → Bool) (h1 : Passes f1 sel1)
+    (s : σ) (v : Item) (hv : sel1 v = false) : pipeStep f1 f2 s v = f2 s v := by
+  unfold pipeStep
+  rw [h1 s v hv]
+  rcases h : f2 s v with ⟨out, s', _ | e⟩ <;> simp [pass, loop, h, Run.out]
+
+/-- **Appending a selective element to a pipeline is invisible when it selects nothing of what the
+pipeline yields for a value**: results, state and exception are those of the pipeline alone. -/
+theorem insert_invisible_after (f1 f2 : σ → Item → Step σ Item) (sel2 : Item → Bool) (h2 : Passes f2 sel2)
+    (s : σ) (v : Item) (hv : ∀ y ∈ (f1 s v).out, sel2 y = false) : pipeStep f1 f2 s v = f1 s v := by
+  have hflat : ∀ l : List Item, (l.map (fun b => [b])).flatten = l := by
+    intro l; induction l <;> simp_all
+  simp only [pipeStep]
+  rw [state_untouched_by_unselected f2 sel2 h2 (f1 s v).out (f1 s v).st hv]
+  simp only [Run.out, hflat]
+
+/-- the interleaving law for a whole pipeline of selective elements: values that no element selects
+stand, as the very same objects, where the pattern puts them, and everything else — results, final
+state, exception — is as for the other values alone -/
+theorem pipeline_interleave (l : List ((σ → Item → Step σ Item) × (Item → Bool)))
+    (hl : ∀ p ∈ l, Passes p.1 p.2) (p : List Bool) (A B : List Item) (s : σ) (hpat : IsPattern p A B)
+    (hB : ∀ b ∈ B, ∀ q ∈ l, q.2 b = false) :
+    pipeRun (l.map (·.1)) s (merge p A B) =
+      ⟨mergeBlocks (pipeRun (l.map (·.1)) s A).err.isSome p (pipeRun (l.map (·.1)) s A).blocks B,
+        (pipeRun (l.map (·.1)) s A).st, (pipeRun (l.map (·.1)) s A).err⟩ := by
+  apply interleave_law _ _ (pipeAll_passes l hl) p A B s hpat
+  intro b hb
+  simp only [List.any_eq_false]
+  intro q hq
+  simp [hB b hb q hq]
+
+/-- an element that only knows the file system passes the same values in a world with more state -/
+theorem liftFS_passes {ω : Type} (get : ω → FS) (set : ω → FS → ω) (hgs : ∀ w, set w (get w) = w)
+    (f : FS → Item → Step FS Item) (sel : Item → Bool) (h : Passes f sel) : Passes (liftFS get set f) sel := by
+  intro w v hv
+  simp [liftFS, h (get w) v hv, pass, hgs]
+
+/-! ## 5. Non-vacuity: concrete instances of the hypotheses and of the runs -/
+
+section examples
+
+/-- a bare number -/
+def exInt : Item := ⟨.src 0, .int 7, none⟩
+/-- a one-dimensional histogram of numbers with context -/
+def exHist : Item := ⟨.src 2, .hist ⟨1, 1, [2], .num⟩, some ⟨.src 3, [("n", .int 1)]⟩⟩
+/-- a histogram whose bins are vectors: `ToCSV` raises `LenaTypeError` on it -/
+def exBad : Item := ⟨.src 4, .hist ⟨2, 1, [2], .vec⟩, none⟩
+/-- a histogram whose context disables the conversion -/
+def exOff : Item := ⟨.src 6, .hist ⟨3, 1, [2], .num⟩, some ⟨.src 7, [("output", .dict [("to_csv", .bool false)])]⟩⟩
+
+-- the hypotheses of `interleave_law` / `toCSV_interleave` hold for a non-trivial interleaving
+example : IsPattern [true, false, true, false] [exHist, exBad] [exInt, exOff] := ⟨rfl, rfl⟩
+example : merge [true, false, true, false] [exHist, exBad] [exInt, exOff] = [exHist, exInt, exBad, exOff] := rfl
+example : ∀ b ∈ [exInt, exOff], toCSVSel b = false := by decide
+example : toCSVSel exHist = true ∧ toCSVSel exBad = true := by decide
+-- the run: `exHist` is converted (one new value), `exInt` passes, `exBad` raises; `exOff` is never consumed
+example : (toCSVRun () [exHist, exInt, exBad, exOff]).err = some .lenaTypeError := by decide
+example : (toCSVRun () [exHist, exInt, exBad, exOff]).blocks.map (fun b => b.map (·.tok)) =
+    [[.made (.src 2) 0], [.src 0], []] := by decide
+example : (toCSVRun () [exInt, exHist, exOff]).blocks.map (fun b => b.map (·.tok)) =
+    [[.src 0], [.made (.src 2) 0], [.src 6]] := by decide
+-- `mergeBlocks` stops after the failing block
+example : mergeBlocks true [true, false, true, false] [[1], ([] : List Nat)] [8, 9] = [[1], [8], []] := by decide
+example : mergeBlocks false [true, false, true, false] [[1], [2, 3]] [8, 9] = [[1], [8], [2, 3], [9]] := by decide
+example : pick true [true, false, true, false] [[1], [8], [2, 3], [9]] = [[1], [2, 3]] := by decide
+example : pick false [true, false, true, false] [[1], [8], [2, 3], [9]] = [[8], [9]] := by decide
+
+/-- `Write`: a string with context, an empty file system with the output directory -/
+def exCfg : WriteCfg := ⟨"out", "output", false, false⟩
+def exFS : FS := ⟨[], ["out"], 5⟩
+def exStr : Item := ⟨.src 10, .str "text", some ⟨.src 1, [("output", .dict [("filename", .str "f")])]⟩⟩
+def exNoWrite : Item := ⟨.src 2, .str "text", some ⟨.src 3, [("output", .dict [("write", .bool false)])]⟩⟩
+def exWritten : Item := ⟨.src 4, .str "out/f.txt", some ⟨.src 5, [("output", .dict [("filename", .str "f")])]⟩⟩
+
+example : writeSel exStr = true ∧ writeSel exNoWrite = false ∧ writeSel exInt = false := by decide
+-- the selected string is written (one file, the path is yielded in a new tuple with the same context object)
+example : (writeRun exCfg exFS [exNoWrite, exStr, exInt]).st.files.map (fun f => (f.path, f.content)) =
+    [("out/f.txt", .lit "text")] := by decide +kernel
+example : (writeRun exCfg exFS [exNoWrite, exStr, exInt]).blocks.map (fun b => b.map (·.tok)) =
+    [[.src 2], [.made (.src 10) 0], [.src 0]] := by decide +kernel
+-- the hypotheses of `write_already_written` are satisfiable
+example : isWritable exWritten.data [("output", .dict [("filename", .str "f")])] = true ∧
+    (makeFilename exCfg [("filename", .str "f")]).toOption.map (fun r => (r.1, r.2.2)) = some ("f", "out/f.txt") ∧
+    exWritten.data.eqStr "out/f.txt" = true := by decide +kernel
+
+/-- `LaTeXToPDF`: a tex file whose process ends while the next, unselected, value is processed -/
+def exTex : Item := ⟨.src 0, .str "a.tex", some ⟨.src 1, [("output", .dict [("filetype", .str "tex")])]⟩⟩
+def exSched : Sched := ⟨fun _ => 1, fun _ => 0⟩
+
+example : pdfSel exTex = true ∧ pdfSel exInt = false := by decide
+example : (pdfRun false exSched ⟨[], [], 5⟩ [exTex, exInt]).blocks.map (fun b => b.map (fun e => (e.isPass, e.item.tok))) =
+    [[], [(false, .made (.src 0) 0), (true, .src 0)]] := by decide
+example : (passedOf (pdfRun false exSched ⟨[], [], 5⟩ [exTex, exInt]).out).map (·.tok) = [exInt.tok] := by
+  decide +kernel
+
+-- the hypothesis `KeysOK []` of `pdf_selected_multiset` holds for two tex files with different names
+def exTex2 : Item := ⟨.src 4, .str "b.tex", some ⟨.src 5, [("output", .dict [("filetype", .str "tex")])]⟩⟩
+example : KeysOK [] [exTex, exInt, exTex2] := by
+  constructor
+  · decide +kernel
+  · decide +kernel
+example : (pdfRun false exSched ⟨[], [], 5⟩ [exTex, exInt, exTex2]).err = none := by decide +kernel
+example : ((prodsOf (pdfRun false exSched ⟨[], [], 5⟩ [exTex, exInt, exTex2]).out).map (·.data.eqStr "a.pdf")) =
+    [true, false] := by decide +kernel
+
+end examples
 
 end Lena.C10
